@@ -230,6 +230,18 @@ Theorem C14_imports_complete_nonvacuous :
 Proof. exact Proofs.C14Witness.imports_complete_nonvacuous. Qed.
 Print Assumptions C14_imports_complete_nonvacuous.
 
+(* the condition one_generated_name of (a) is needed: crate a with two types of the Rust name A2 (in two modules), generated
+   as A2 and as A2Other; `use a::A2;` - the tool rewrites the reference to A2Other (its rename table knows bare names) and
+   imports A2Other, the specification's renamed_in says A2: outside dom_C14, in no finding class, nothing claimed *)
+Theorem C14_two_generated_names_outside_domain :
+  one_generated_name (Proofs.C14Main.c14_infos uc_exec [] Proofs.C14Witness.ws_two_names) (lit "a") (lit "A2") = false /\
+  renamed_in (Proofs.C14Main.c14_infos uc_exec [] Proofs.C14Witness.ws_two_names) (lit "a") (lit "A2") = lit "A2" /\
+  Proofs.C14Witness.w_run (fun l => l) (fun l => l) Proofs.C14Witness.ws_two_names (lit "my_crate") =
+    Some ([(lit "a", lit "A2Other")], [(lit "A2", lit "a", false, None, false)]) /\
+  Proofs.C14Witness.w_field_types Proofs.C14Witness.ws_two_names (lit "my_crate") = [RSimple (lit "A2Other")].
+Proof. exact Proofs.C14Witness.two_names_eval. Qed.
+Print Assumptions C14_two_generated_names_outside_domain.
+
 (* the (b) half of the domain is inhabited too: `use a::*;` and a reference to the serde-renamed A2 - in
    dom_C14, in no finding class, imported (rv_imported: under the generated name, here A2Renamed) *)
 Theorem C14_imports_complete_glob_nonvacuous :
